@@ -69,9 +69,15 @@ def _points(decl):
     return uniq
 
 
-def predicates(decl):
+def predicates(decl, tier='quick'):
     out = [['expr', e] for e in MENU[decl]]
     pts = _points(decl)
+    if tier == 'thorough':
+        base = DECLS[decl]['base']
+        rngs = [ro.rep_range(h) for _, h in base]
+        more = [tuple(r[(3 * i + k) % len(r)] for i, r in enumerate(rngs))
+                for k in range(1, 5)]
+        pts = pts + [p for p in more if p not in pts]
     for k in (1, 2, 3):
         for comb in itertools.combinations(range(len(pts)), k):
             out.append(['points', [list(pts[i]) for i in comb]])
@@ -81,13 +87,13 @@ def predicates(decl):
 def shards(tier, seed):
     out = []
     for decl in DECLS:
-        preds = predicates(decl)
+        preds = predicates(decl, tier)
         for be in ('cudd', 'autoref'):
             for i in range(len(preds)):
                 if tier != 'thorough' and be == 'autoref' and \
                         (i + seed) % 3 != 0:
                     continue
-                out.append(dict(decl=decl, backend=be, pred=i))
+                out.append(dict(decl=decl, backend=be, pred=i, tier=tier))
         for be in ('cudd', 'autoref'):
             out.append(dict(decl=decl, backend=be, pred='rename'))
     return out
@@ -98,7 +104,7 @@ def cases(shard):
         yield dict(decl=shard['decl'], backend=shard['backend'],
                    rename=True)
         return
-    p = predicates(shard['decl'])[shard['pred']]
+    p = predicates(shard['decl'], shard.get('tier', 'quick'))[shard['pred']]
     yield dict(decl=shard['decl'], backend=shard['backend'], pred=p)
 
 
